@@ -93,6 +93,8 @@ impl LookaheadDFA {
 
             // Filter the transitions with the matching from-state
             let mut any_matching_found = false;
+            // Set when a transition via the current lookahead token has been taken
+            let mut transition_taken = false;
             for i in 0..self.transitions.len() {
                 let current_transition = &self.transitions[i];
 
@@ -122,6 +124,7 @@ impl LookaheadDFA {
                         // Set the state to the to-state
                         state = current_transition.2;
                         prod_num = current_transition.3;
+                        transition_taken = true;
                         // Test if the production in this transition is a valid one.
                         // In this case the to-state is an accepting one.
                         if prod_num > INVALID_PROD {
@@ -142,6 +145,12 @@ impl LookaheadDFA {
                     }
                     _ => (),
                 }
+            }
+            if !transition_taken {
+                // The current lookahead token can't be matched from the current state. Reading on
+                // would skip over this token and match later tokens against this state.
+                prod_num = INVALID_PROD;
+                break;
             }
         }
         if prod_num > INVALID_PROD {
